@@ -470,6 +470,7 @@ package jrpc2
 //@   requires wfServer(s) && held(s.mu) && Server_mu_inv(s) && forall(i int, 0 <= i && i < len(next) ==> next[i] != nil)
 //@   modifies map(s.used), fired, assignCalls
 //@   ensures[C01:one-task-per-member] len(result) == len(next)
+//@   ensures[C01:tasks-distinct] forall(i1 int, i2 int, 0 <= i1 && i1 < i2 && i2 < len(result) ==> result[i1] != result[i2])
 //@   ensures[C01:task-shape] forall(i int, 0 <= i && i < len(result) ==> taskOK(result[i]) && allocated(result[i]) && result[i].batch == next[i].batch && result[i].hreq.method == next[i].M && result[i].hreq.params == next[i].P)
 //@   ensures[C02:invalid-never-runs] forall(i int, 0 <= i && i < len(result) ==> (next[i].err != nil ==> result[i].err != nil && result[i].m == nil))
 //@   ensures[C02:empty-method-never-runs] forall(i int, 0 <= i && i < len(result) ==> (next[i].M == "" ==> result[i].err != nil && result[i].m == nil))
@@ -510,10 +511,34 @@ package jrpc2
 //@   ensures[C03:relocked] held(s.mu) && Server_mu_inv(s) && s.callID >= old(s.callID)
 //@   ensures[C03:debt] wgDebt(fieldaddr(s, nbar)) == old(wgDebt(fieldaddr(s, nbar))) + n
 
+// cntRun(h, a, n): how many of the first n tasks are runnable (no error yet),
+// h being the contents of the err field. Recursion on n; monotonicity and
+// "depends only on the first n entries" are its induction consequences, whose
+// steps are checked as lemmas.
+//@ spec cntRun(ArrIface, arr.*jrpc2.task, Int) Int
+//@ axiom forall(h ArrIface, a arr.*jrpc2.task, n Int, n <= 0 ==> cntRun(h, a, n) == 0)
+//@ axiom forall(h ArrIface, a arr.*jrpc2.task, n Int, n > 0 ==> cntRun(h, a, n) == cntRun(h, a, n - 1) + (h[a[n - 1]] == nil ? 1 : 0))
+//@ axiom[by:cntRunMonoStep] forall(h ArrIface, a arr.*jrpc2.task, m Int, n Int, m <= n ==> cntRun(h, a, m) <= cntRun(h, a, n))
+//@ axiom[by:cntRunPrefixStep] forall(h ArrIface, g ArrIface, a arr.*jrpc2.task, b arr.*jrpc2.task, n Int, forall(i Int, 0 <= i && i < n ==> (h[a[i]] == nil) == (g[b[i]] == nil)) ==> cntRun(h, a, n) == cntRun(g, b, n))
+//@ axiom[by:cntRunGap] forall(h ArrIface, a arr.*jrpc2.task, m Int, n Int, k Int, m <= k && k < n && cntRun(h, a, n) == cntRun(h, a, m) ==> h[a[k]] != nil)
+//@ lemma[C01] cntRunGap(h ArrIface, a arr.*jrpc2.task, m Int, n Int, k Int)
+//@   requires 0 <= m && m <= k && k < n && cntRun(h, a, n) == cntRun(h, a, m)
+//@   ensures cntRun(h, a, k + 1) <= cntRun(h, a, n) && cntRun(h, a, m) <= cntRun(h, a, k) && h[a[k]] != nil
+//@ lemma[C01] cntRunMonoStep(h ArrIface, a arr.*jrpc2.task, m Int, n Int)
+//@   requires m <= n
+//@   requires m <= n - 1 ==> cntRun(h, a, m) <= cntRun(h, a, n - 1)
+//@   ensures cntRun(h, a, m) <= cntRun(h, a, n)
+//@ lemma[C01] cntRunPrefixStep(h ArrIface, g ArrIface, a arr.*jrpc2.task, b arr.*jrpc2.task, n Int)
+//@   requires forall(i Int, 0 <= i && i < n ==> (h[a[i]] == nil) == (g[b[i]] == nil))
+//@   requires n > 0 ==> (forall(i Int, 0 <= i && i < n - 1 ==> (h[a[i]] == nil) == (g[b[i]] == nil)) ==> cntRun(h, a, n - 1) == cntRun(g, b, n - 1))
+//@   ensures cntRun(h, a, n) == cntRun(g, b, n)
+
 //@ func (tasks).numToDo
 //@   requires forall(i int, 0 <= i && i < len(ts) ==> taskOK(ts[i]))
 //@   ensures[C03:counts] 0 <= notes && notes <= todo && todo <= len(ts)
+//@   ensures[C01:todo-counts-runnable] todo == cntRun(fieldarr("task", "err"), elems(ts), len(ts))
 //@   loop 1 invariant 0 <= notes && notes <= todo && todo <= rangeindex + 1
+//@   loop 1 invariant todo == cntRun(fieldarr("task", "err"), elems(ts), rangeindex + 1)
 
 // deliver: nothing to report => nothing is sent and the lock is not even
 // taken. Otherwise, under the lock: every id this batch answers for a task
@@ -555,10 +580,22 @@ package jrpc2
 
 // The dispatcher: runs the runnable tasks (the last one inline, the others in
 // goroutines it joins), then builds the reply once and delivers it.
+// issued(t): ghost - how many invocations of task t have been issued (inline
+// or in a goroutine of its own).
+//@ ghost issued(Int) Int
 //@ func (*Server).dispatchLocked$1
 //@   captures wfServer(s) && forall(i int, 0 <= i && i < len(tasks) ==> taskOK(tasks[i]) && allocated(tasks[i]) && validErr(tasks[i].err))
+//@   captures todo == cntRun(fieldarr("task", "err"), elems(tasks), len(tasks)) && forall(i1 int, i2 int, 0 <= i1 && i1 < i2 && i2 < len(tasks) ==> tasks[i1] != tasks[i2])
 //@   requires !held(s.mu)
-//@   modifies monitor(Server, s), fired, chSends(ch), held(s.mu), semHeld, handlerRuns, todo, wgDebt(fieldaddr(s, nbar)), task.val, task.err
+//@   modifies monitor(Server, s), fired, chSends(ch), held(s.mu), semHeld, handlerRuns, todo, wgDebt(fieldaddr(s, nbar)), task.val, task.err, issued
+//@   at call.invoke#1 assert[C01:last-runnable-runs-inline] todo == 0 && todo == cntRun(old(fieldarr("task", "err")), elems(tasks), len(tasks)) - cntRun(old(fieldarr("task", "err")), elems(tasks), rangeindex + 2)
+//@   at call.invoke#1 ghostset issued(t) = issued(t) + 1
+//@   at go.dispatchLocked$1$1#1 ghostset issued(t) = issued(t) + 1
+//@   at call.Wait#1 assert[C01:every-runnable-task-issued-once] forall(k int, 0 <= k && k < len(tasks) ==> issued(tasks[k]) == old(issued(tasks[k])) + (old(tasks[k].err) == nil ? 1 : 0))
+//@   loop 1 invariant todo == cntRun(old(fieldarr("task", "err")), elems(tasks), len(tasks)) - cntRun(old(fieldarr("task", "err")), elems(tasks), rangeindex + 1)
+//@   loop 1 invariant forall(k int, 0 <= k && k <= rangeindex ==> issued(tasks[k]) == old(issued(tasks[k])) + (old(tasks[k].err) == nil ? 1 : 0))
+//@   loop 1 invariant forall(k int, rangeindex < k && k < len(tasks) ==> issued(tasks[k]) == old(issued(tasks[k])) && tasks[k].err == old(tasks[k].err))
+//@   loop 1 invariant forall(i1 int, i2 int, 0 <= i1 && i1 < i2 && i2 < len(tasks) ==> tasks[i1] != tasks[i2])
 //@   at call.invoke#1 assert[C01:only-runnable-inline] arg2 != nil && arg3 != nil && arg1 != nil
 //@   at call.Done#1 assert[C03:done-after-handler] called("call.invoke#1")
 //@   at call.responses#1 assert[C01:joined-before-reply] called("call.Wait#1")
